@@ -374,11 +374,14 @@ func (ir *ifdReader) ParseUint16(t Tag) uint16 {
 // Non-embedded or embedded tag with variable byte length.
 // This function allocates.
 func (ir *ifdReader) ParseString(t Tag) string {
-	if t.IsEmbedded() {
+	isText := t.IsType(tag.TypeASCII) || t.IsType(tag.TypeASCIINoNul)
+	if t.IsEmbedded() && isText {
+		// (numbers in the 4-byte slot are not text: their bytes would read
+		// differently in the two byte orders)
 		t.EmbeddedValue(ir.buffer.buf[:4])
 		return string(trimNULBuffer(ir.buffer.buf[:t.Size()]))
 	}
-	if t.IsType(tag.TypeASCII) || t.IsType(tag.TypeASCIINoNul) {
+	if !t.IsEmbedded() && isText {
 		buf, err := ir.readTagValue()
 		if err != nil {
 			// buf holds at most what the read window had (a value longer
@@ -397,11 +400,12 @@ func (ir *ifdReader) ParseString(t Tag) string {
 // Non-embedded or embedded tag with variable byte length.
 // This function does not allocate.
 func (ir *ifdReader) ParseBuffer(t Tag) []byte {
-	if t.IsEmbedded() {
+	isText := t.IsType(tag.TypeASCII) || t.IsType(tag.TypeASCIINoNul)
+	if t.IsEmbedded() && isText {
 		t.EmbeddedValue(ir.buffer.buf[:4])
 		return trimNULBuffer(ir.buffer.buf[:t.Size()])
 	}
-	if t.IsType(tag.TypeASCII) || t.IsType(tag.TypeASCIINoNul) {
+	if !t.IsEmbedded() && isText {
 		buf, err := ir.readTagValue()
 		if err != nil {
 			return nil
